@@ -271,6 +271,7 @@ def build(run):
                        'all circuits of 1..3 combinational blocks over 2 inputs whose inputs are given as object / name / _not_ shortcut / Const / plain '
                        'constant, single or group: after finalize() the three connection relations coincide, shortcuts are shared, get_conf and '
                        'input_signature agree; plus the error families (unknown name, foreign block, wrong kind, duplicate, connect twice, add after finalize)')
-    run.unclaim('Circuit._finalize itself (nested loops over dict views that are updated while iterated, generator expressions over groups) is not under '
-                'contract: its result is checked by the bounded search only; CBlock.connect/check_signature/get_conf: bounded only')
+    run.unclaim("the converse direction 'A is an input connection of B only if A is among B's resolved inputs' (the list of collected inputs contains "
+                "nothing but resolved inputs of the block) and 'no block is created in the second pass' (needs the string clauses of _validate_blk "
+                "inside the loops): covered by the bounded search only; CBlock.connect/check_signature/get_conf: bounded only")
     run.assume('block objects are heap objects; Const objects are not blocks')
